@@ -46,6 +46,32 @@ def clone(n):
     return n
 
 
+def alpha_text(e):
+    """compact text of an expression with every comprehension variable renamed canonically (_c0, _c1, ... in order of appearance):
+    `[f(x) for x in S]` and `[f(y) for y in S]` have the same alpha_text"""
+    e = clone(e)
+    k = [0]
+
+    def rename(comp):
+        mapping = {}
+        for g in comp.generators:
+            for x in ast.walk(g.target):
+                if isinstance(x, ast.Name) and x.id not in mapping:
+                    mapping[x.id] = '_c%d' % k[0]
+                    k[0] += 1
+        for x in ast.walk(comp):
+            if isinstance(x, ast.Name) and x.id in mapping:
+                x.id = mapping[x.id]
+    for n in ast.walk(e):
+        if isinstance(n, (ast.ListComp, ast.SetComp, ast.GeneratorExp, ast.DictComp)):
+            rename(n)
+    return ast.unparse(e).replace(' ', '')
+
+
+def alpha_of(text):
+    return alpha_text(ast.parse(text, mode='eval').body)
+
+
 def canon_compare(e):
     """one spelling per comparison: a literal goes to the right-hand side; otherwise `>` / `>=` are written as `<` / `<=`
     (a > b == b < a).  Applied to every single-operator Compare inside e; returns a copy."""
